@@ -394,15 +394,17 @@ def typed_dict_signature(obj: tp.Callable) -> inspect.Signature:
         so we should be able to declare a matching signature for it.
     """
     hints = cached_type_hints(obj)
-    total = getattr(obj, "__total__", True)
-    default = inspect.Parameter.empty if total else ...
+    # A key is required per key (`Required[...]`, inherited totality), not per class -
+    #   and a TypedDict has no class-level defaults: `getattr` would only ever find
+    #   the `dict` methods that a key happens to be named after (`items`, `keys`, ...).
+    required = getattr(obj, "__required_keys__", hints.keys())
     return inspect.Signature(
         parameters=tuple(
             inspect.Parameter(
                 name=x,
                 kind=inspect.Parameter.KEYWORD_ONLY,
                 annotation=y,
-                default=getattr(obj, x, default),
+                default=inspect.Parameter.empty if x in required else ...,
             )
             for x, y in hints.items()
         )
